@@ -598,6 +598,7 @@ const c26Dummy = "Case (mkGraph (mkObj [] None [] ([],0)) [] [] 0%Z) [[]] None (
 
 const c26KFLifeline = "C26-lifeline-end-dropped"
 const c26KFUserinfo = "C26-icon-url-userinfo"
+const c26KFRootLabel = "C26-root-label-mapkey"
 
 // signature of the second known finding: an icon URL with a userinfo part (user[:password]@host)
 func c26HasUserinfo(g *d2graph.Graph) bool {
